@@ -140,7 +140,7 @@ func qaC26inFlightGuard(c *Ctx, fnName string, sel Sel, idx int) {
 	}
 	isLoad := c.P.QaIsLoadOf("quic.sentPacket.inFlight")
 	for _, in := range sites {
-		obj := in.(ssa.CallInstruction).Common().Args[idx]
+		obj := BaselineArgs(in.(ssa.CallInstruction).Common())[idx]
 		ok := false
 		for _, f := range FactsAtInstr(in) {
 			u, isU := f.If.Cond.(*ssa.UnOp)
@@ -177,7 +177,7 @@ func qaC26window(c *Ctx, fnName, field string) {
 			if isMin(call) {
 				shape = "=min"
 			} else if b, ok := call.Call.Value.(*ssa.Builtin); ok && b.Name() == "max" {
-				for _, a := range call.Call.Args {
+				for _, a := range BaselineArgs(&call.Call) {
 					if isMin(QaStripConv(a)) {
 						shape = "floored"
 					}
